@@ -13,7 +13,7 @@ PROPS = {
             {"pkg": "ord", "name": "VH_C20_BidAccept", "quick": {"params": {"U": 2, "FQ": 0}}, "thorough": {"params": {"U": 2, "FQ": 1}}},
             {"pkg": "ord", "name": "VH_C20_ListAccept2D", "quick": {"params": {"U2": 3, "FQ": 0}}, "thorough": {"params": {"U2": 4, "FQ": 1}}},
             {"pkg": "ord", "name": "VH_C20_BidAccept2D", "quick": {"params": {"U2": 3, "FQ": 0}}, "thorough": {"params": {"U2": 3, "FQ": 1}}},
-            {"pkg": "ord", "name": "VH_C20_Inscribe", "quick": {"params": {"BIG": 1}}, "thorough": {"params": {"BIG": 2}}},
+            {"pkg": "ord", "name": "VH_C20_Inscribe", "quick": {"params": {"BIG": 2}}, "thorough": {"params": {"BIG": 2}}},
         ],
         "assumptions": [],
     },
@@ -23,7 +23,7 @@ PROPS = {
             {"pkg": "interpreter", "name": "VH_C06_CheckSig", "skip_label_prefix": "assert:C08", "quick": {"params": {"S": 0, "ERA": 0, "HT": 0, "UNC": 1}}, "thorough": {"params": {"S": 1, "ERA": 1, "HT": 1, "UNC": 1}}},
             {"pkg": "interpreter", "name": "VH_C06_Encoding", "quick": {"params": {"S": 0, "ERA": 0, "TRAIL": 0, "SLN": 2}}, "thorough": {"params": {"S": 0, "ERA": 0, "TRAIL": 0, "SLN": 6}}},
             {"pkg": "interpreter", "name": "VH_C06_LowS", "quick": {"params": {"S": 0, "ERA": 0, "TRAIL": 0, "HT": 0}}, "thorough": {"params": {"S": 0, "ERA": 1, "TRAIL": 0, "HT": 2}}},
-            {"pkg": "interpreter", "name": "VH_C06_MultiSig", "quick": {"params": {"S": 0, "N": 2, "ERA": 0, "HT": 0}}, "thorough": {"params": {"S": 1, "N": 3, "ERA": 1, "HT": 1}}},
+            {"pkg": "interpreter", "name": "VH_C06_MultiSig", "quick": {"params": {"S": 0, "N": 2, "ERA": 0, "HT": 0, "TRAIL": 2}}, "thorough": {"params": {"S": 1, "N": 3, "ERA": 1, "HT": 1, "TRAIL": 2}}},
         ],
         "assumptions": [],
     },
